@@ -128,7 +128,18 @@ func calleeInlinable(pk *packages.Package, fd *ast.FuncDecl) string {
 }
 
 // normalizeNewHelpers computes the overlay (absolute file name -> new content) inlining the new helpers.
-func normalizeNewHelpers(p *Program, ref []invEntry) map[string][]byte {
+// normalizePrev: the overlay of the previous round (file name -> content); sources are read through it.
+var normalizePrev map[string][]byte
+
+func readSource(name string) ([]byte, error) {
+	if b, ok := normalizePrev[name]; ok {
+		return b, nil
+	}
+	return os.ReadFile(name)
+}
+
+func normalizeNewHelpers(p *Program, ref []invEntry, prev map[string][]byte) map[string][]byte {
+	normalizePrev = prev
 	refKeys := refKeySet(ref)
 	counter := 0
 	editsByFile := map[string][]textEdit{}
@@ -206,6 +217,13 @@ func normalizeNewHelpers(p *Program, ref []invEntry) map[string][]byte {
 			}
 			if !isCall {
 				delete(candByObj, obj)
+				// a method value / function value of a new helper (d.Struct(tag, att.decodeFields)) is rewritten into
+				// a function literal that calls it; the next round inlines that call
+				if ed, fname, ok := wrapFuncValue(p, pk, id, obj.(*types.Func)); ok {
+					editsByFile[fname] = append(editsByFile[fname], ed)
+					normalizeNotes = append(normalizeNotes, fmt.Sprintf("new function %s.%s is used as a value at %s: wrapped in a function literal for the analysis", relOrRoot(pk.PkgPath), obj.Name(), p.pos(id.Pos())))
+					continue
+				}
 				normalizeNotes = append(normalizeNotes, fmt.Sprintf("new function %s.%s is not inlined (used as a value)", relOrRoot(pk.PkgPath), obj.Name()))
 			}
 		}
@@ -296,11 +314,15 @@ func normalizeNewHelpers(p *Program, ref []invEntry) map[string][]byte {
 	for fname, eds := range editsByFile {
 		src, ok := srcByFile[fname]
 		if !ok {
-			b, err := os.ReadFile(fname)
-			if err != nil {
-				continue
+			if b, have := prev[fname]; have {
+				src = b
+			} else {
+				b, err := os.ReadFile(fname)
+				if err != nil {
+					continue
+				}
+				src = b
 			}
-			src = b
 		}
 		sort.Slice(eds, func(i, j int) bool { return eds[i].start > eds[j].start })
 		out := append([]byte{}, src...)
@@ -347,7 +369,7 @@ func typeExprFor(pk *packages.Package, f *ast.File, t types.Type, scope *types.S
 // inlineSite builds the text edit replacing the statement that contains call.
 func inlineSite(p *Program, pk *packages.Package, f *ast.File, call *ast.CallExpr, fd *ast.FuncDecl, obj *types.Func, n int) (textEdit, string) {
 	fset := p.Fset
-	src, err := os.ReadFile(fset.Position(f.Pos()).Filename)
+	src, err := readSource(fset.Position(f.Pos()).Filename)
 	if err != nil {
 		return textEdit{}, "source not readable"
 	}
@@ -386,6 +408,9 @@ func inlineSite(p *Program, pk *packages.Package, f *ast.File, call *ast.CallExp
 	}
 	if len(call.Args) != sig.Params().Len() || call.Ellipsis.IsValid() {
 		return textEdit{}, "argument count / spread call"
+	}
+	if ed, ok := inlineExpr(p, pk, f, call, fd, obj, tparamSubst, txt, tfile); ok {
+		return ed, ""
 	}
 	path, _ := astutil.PathEnclosingInterval(f, call.Pos(), call.End())
 	// enclosing statement
@@ -880,7 +905,7 @@ func pureExpr(e ast.Expr) bool {
 // calleeBodyText: the source text of the callee's body (from the file it is declared in).
 func calleeBodyText(fset *token.FileSet, fd *ast.FuncDecl) string {
 	tf := fset.File(fd.Pos())
-	b, err := os.ReadFile(tf.Name())
+	b, err := readSource(tf.Name())
 	if err != nil {
 		return nodeText(fset, fd.Body)
 	}
@@ -1004,4 +1029,178 @@ func typeNamesShadowed(pk *packages.Package, t types.Type, scope *types.Scope, p
 		}
 	}
 	return false
+}
+
+// wrapFuncValue: the identifier id denotes the new helper fn used as a value (`x.m` or `f`, not called). It is
+// replaced by `func(a0 T0, ...) (R...) { return x.m(a0, ...) }` when the receiver expression is a plain identifier
+// (binding it now or at call time is the same for the analysis' purposes) and every type can be spelled in the file.
+func wrapFuncValue(p *Program, pk *packages.Package, id *ast.Ident, fn *types.Func) (textEdit, string, bool) {
+	var file *ast.File
+	for _, f := range pk.Syntax {
+		if f.Pos() <= id.Pos() && id.End() <= f.End() {
+			file = f
+		}
+	}
+	if file == nil {
+		return textEdit{}, "", false
+	}
+	path, _ := astutil.PathEnclosingInterval(file, id.Pos(), id.End())
+	var expr ast.Expr = id
+	if len(path) > 1 {
+		if se, ok := path[1].(*ast.SelectorExpr); ok && se.Sel == id {
+			if _, isIdent := ast.Unparen(se.X).(*ast.Ident); !isIdent {
+				return textEdit{}, "", false
+			}
+			expr = se
+		}
+	}
+	sig, ok := fn.Type().(*types.Signature)
+	if !ok || sig.Variadic() || sig.TypeParams() != nil {
+		return textEdit{}, "", false
+	}
+	scope := pk.Types.Scope().Innermost(id.Pos())
+	var params, args, results []string
+	for i := 0; i < sig.Params().Len(); i++ {
+		ts := typeExprFor(pk, file, sig.Params().At(i).Type(), scope, id.Pos())
+		if ts == "" {
+			return textEdit{}, "", false
+		}
+		params = append(params, fmt.Sprintf("kmipsaArg%d %s", i, ts))
+		args = append(args, fmt.Sprintf("kmipsaArg%d", i))
+	}
+	for i := 0; i < sig.Results().Len(); i++ {
+		ts := typeExprFor(pk, file, sig.Results().At(i).Type(), scope, id.Pos())
+		if ts == "" {
+			return textEdit{}, "", false
+		}
+		results = append(results, ts)
+	}
+	call := nodeText(p.Fset, expr) + "(" + strings.Join(args, ", ") + ")"
+	body := call
+	if len(results) > 0 {
+		body = "return " + call
+	}
+	res := ""
+	if len(results) > 0 {
+		res = " (" + strings.Join(results, ", ") + ")"
+	}
+	text := "func(" + strings.Join(params, ", ") + ")" + res + " { " + body + " }"
+	tf := p.Fset.File(expr.Pos())
+	return textEdit{start: tf.Offset(expr.Pos()), end: tf.Offset(expr.End()), text: text}, tf.Name(), true
+}
+
+// inlineExpr: expression-level inlining of a one-line helper. The callee's body is a single `return EXPR`, it is not
+// generic, every argument is a pure expression (no side effect, so evaluating it where and as often as the
+// parameter occurs is the same), no parameter is assigned or has its address taken in EXPR, and every free name of
+// EXPR means the same thing at the call site (package-level names not shadowed there, imported packages imported
+// under the same name by the caller's file). The call is replaced by (EXPR) with the parameters substituted.
+func inlineExpr(p *Program, pk *packages.Package, f *ast.File, call *ast.CallExpr, fd *ast.FuncDecl, obj *types.Func, tparamSubst map[*types.TypeName]string, txt func(ast.Node) string, tfile *token.File) (textEdit, bool) {
+	if tparamSubst != nil || fd.Body == nil || len(fd.Body.List) != 1 || fd.Recv != nil {
+		return textEdit{}, false
+	}
+	ret, ok := fd.Body.List[0].(*ast.ReturnStmt)
+	if !ok || len(ret.Results) != 1 {
+		return textEdit{}, false
+	}
+	for _, a := range call.Args {
+		if !pureExpr(a) {
+			if bl, isLit := a.(*ast.BasicLit); !isLit || bl == nil {
+				return textEdit{}, false
+			}
+		}
+	}
+	// parameters by object
+	params := map[types.Object]int{}
+	i := 0
+	for _, fl := range fd.Type.Params.List {
+		for _, nm := range fl.Names {
+			if o := pk.TypesInfo.Defs[nm]; o != nil {
+				params[o] = i
+			}
+			i++
+		}
+		if len(fl.Names) == 0 {
+			i++
+		}
+	}
+	callScope := pk.Types.Scope().Innermost(call.Pos())
+	srcCallee, err := readSource(p.Fset.Position(fd.Pos()).Filename)
+	if err != nil {
+		return textEdit{}, false
+	}
+	cfile := p.Fset.File(fd.Pos())
+	okAll := true
+	type sub struct {
+		start, end int
+		text       string
+	}
+	var subs []sub
+	imports := map[string]string{}
+	for _, is := range f.Imports {
+		path := strings.Trim(is.Path.Value, `"`)
+		name := path[strings.LastIndex(path, "/")+1:]
+		if is.Name != nil {
+			name = is.Name.Name
+		} else if ip := pk.Imports[path]; ip != nil {
+			name = ip.Name
+		}
+		imports[path] = name
+	}
+	ast.Inspect(ret.Results[0], func(n ast.Node) bool {
+		switch x := n.(type) {
+		case *ast.FuncLit:
+			okAll = false
+			return false
+		case *ast.UnaryExpr:
+			if x.Op == token.AND {
+				okAll = false
+			}
+		case *ast.SelectorExpr:
+			// qualified identifier: the package must be imported under the same name at the call site
+			if id, ok := x.X.(*ast.Ident); ok {
+				if pn, ok := pk.TypesInfo.Uses[id].(*types.PkgName); ok {
+					if imports[pn.Imported().Path()] != id.Name {
+						okAll = false
+					}
+					if _, o := callScope.LookupParent(id.Name, call.Pos()); o != nil {
+						if _, isPkg := o.(*types.PkgName); !isPkg {
+							okAll = false
+						}
+					}
+					return false
+				}
+			}
+		case *ast.Ident:
+			o := pk.TypesInfo.Uses[x]
+			if o == nil {
+				return true
+			}
+			if idx, isParam := params[o]; isParam {
+				subs = append(subs, sub{cfile.Offset(x.Pos()), cfile.Offset(x.End()), "(" + txt(call.Args[idx]) + ")"})
+				return true
+			}
+			// a package-level name (or a universe name) must denote the same object at the call site
+			if o.Parent() == pk.Types.Scope() || o.Parent() == types.Universe {
+				if _, o2 := callScope.LookupParent(x.Name, call.Pos()); o2 != o {
+					okAll = false
+				}
+				return true
+			}
+			if _, isField := o.(*types.Var); isField && o.(*types.Var).IsField() {
+				return true
+			}
+			okAll = false // a local of the callee other than a parameter: not a single-expression helper after all
+		}
+		return true
+	})
+	if !okAll {
+		return textEdit{}, false
+	}
+	es, ee := cfile.Offset(ret.Results[0].Pos()), cfile.Offset(ret.Results[0].End())
+	body := append([]byte{}, srcCallee[es:ee]...)
+	sort.Slice(subs, func(a, b int) bool { return subs[a].start > subs[b].start })
+	for _, sb := range subs {
+		body = append(body[:sb.start-es], append([]byte(sb.text), body[sb.end-es:]...)...)
+	}
+	return textEdit{start: tfile.Offset(call.Pos()), end: tfile.Offset(call.End()), text: "(" + string(body) + ")"}, true
 }
